@@ -365,5 +365,20 @@ Proof.
   apply fmt_P; first [exact digit_csv_ok|reflexivity|assumption].
 Qed.
 
+(* the two halves of try_number_float, separately (used for the reference repr(float)) *)
+Lemma py_int_fmt n neg m e : 1 <= n -> 0 <= m -> py_int (fmt n (FFin neg m e)) = None.
+Proof.
+  intros Hn Hm. destruct (fmt_fin n neg m e) as (Q & F & E & Q1 & Q2 & F1 & F2 & EV); [lia|assumption|].
+  replace (0 <? n) with true in E by lia. rewrite E. apply py_int_dec; assumption.
+Qed.
+Lemma py_float_fmt n neg m e : 1 <= n -> 0 <= m ->
+  py_float (fmt n (FFin neg m e)) = Some (ODec neg (scaled n m e) (- n)).
+Proof.
+  intros Hn Hm. destruct (fmt_fin n neg m e) as (Q & F & E & Q1 & Q2 & F1 & F2 & EV); [lia|assumption|].
+  replace (0 <? n) with true in E by lia. rewrite E.
+  assert (HF : F <> []) by (destruct F; [cbn [List.length] in F2; lia|discriminate]).
+  rewrite py_float_dec by assumption. rewrite F2, EV. reflexivity.
+Qed.
+
 Print Assumptions try_number_float.
 Print Assumptions py_int_show_int.
